@@ -77,6 +77,13 @@ class FieldInfo:
     has_default: bool
     owner: str
     default: ast.AST | None = None
+    factory: bool = False
+    annotation: str = ""
+
+    @property
+    def per_sample(self) -> bool:
+        """Array-valued field with one entry per sample."""
+        return self.annotation.replace(" ", "").startswith("Array")
 
 
 @dataclass(repr=False, eq=False)
@@ -325,6 +332,7 @@ class Repo:
                     ci.methods[st.name] = fi
             elif isinstance(st, ast.AnnAssign) and isinstance(st.target, ast.Name):
                 init, has_default, default = True, st.value is not None, st.value
+                factory = False
                 if isinstance(st.value, ast.Call) and dotted(st.value.func) in (
                     "field",
                     "dataclasses.field",
@@ -337,11 +345,12 @@ class Repo:
                         if kw.arg in ("default", "default_factory"):
                             has_default = True
                             default = kw.value
+                            factory = kw.arg == "default_factory"
                 ann = ast.unparse(st.annotation)
                 if ann.startswith("ClassVar"):
                     continue
                 ci.own_fields.append(
-                    FieldInfo(st.target.id, init, has_default, node.name, default)
+                    FieldInfo(st.target.id, init, has_default, node.name, default, factory, ann)
                 )
                 if st.value is not None:
                     ci.class_assigns[st.target.id] = st.value
